@@ -140,6 +140,12 @@ theorem C05_431_only_when_full (cfg : Cfg) (s s' : S) (e : Ev)
     | none => simp [hpl] at h
     | some c => simp only [hpl] at h; cases h; exact absurd rfl h4
 
+/-- the hypotheses of `C05_431_only_when_full` are met by the refusal itself -/
+example : ∃ s', step { wbs := 1, readCap := 1024, minHead := 14 }
+      { init with rb := 131072, inDecode := true } (.dec (.needMore 0)) = some s' ∧
+      s'.n431 ≠ ({ init with rb := 131072, inDecode := true } : S).n431 :=
+  ⟨_, rfl, by decide⟩
+
 /-- READ_DISCONNECT is permanent and the read buffer never grows again: after a refusal
 (431/400/EOF) nothing more is taken from the peer. -/
 theorem C05_nothing_read_after_refusal (cfg : Cfg) (evs : List Ev) (s s' : S)
@@ -209,6 +215,13 @@ theorem C05_nothing_read_after_refusal (cfg : Cfg) (evs : List Ev) (s s' : S)
       obtain ⟨h1, h2⟩ := key s s1 e hd hs
       obtain ⟨h3, h4⟩ := ih s1 h1 h
       exact ⟨h3, Nat.le_trans h4 h2⟩
+
+/-- a state after a refusal from which a non-empty event list is accepted (the queued 431 is
+popped and written): the read buffer stays where it was -/
+example : ∃ s', run { wbs := 1, readCap := 1024, minHead := 14 }
+      { init with rb := 131072, q := 1, qErr := 1, rdDisc := true, n431 := 1 }
+      [.pop (some 123), .wrote 123] = some s' ∧ s'.rb = 131072 :=
+  ⟨{ init with rb := 131072, rdDisc := true, n431 := 1, ub := 123 }, by decide, rfl⟩
 
 /-! ### 2. request body read ahead of the handler -/
 
@@ -332,6 +345,9 @@ theorem C05_decode_needs_queue_room (cfg : Cfg) (s s' : S) (he : step cfg s .ent
   · rename_i hg
     simp only [Bool.or_eq_true, decide_eq_true_eq, not_or, Bool.not_eq_true, Nat.not_le] at hg
     exact hg.1.2
+
+example : ∃ s', step { wbs := 1, readCap := 1024, minHead := 14 } { init with q := 15 } .enter = some s' :=
+  ⟨_, rfl⟩
 
 /-- `MAX_PIPELINED_MESSAGES` itself is not a bound: one read of 1024 bytes holding 19 requests of
 18 bytes queues 18 of them behind the one in service -/
@@ -499,6 +515,9 @@ theorem C05_chunk_guard (cfg : Cfg) (s s' : S) (enc : Nat)
     simp only [Bool.or_eq_true, decide_eq_true_eq, not_or, Nat.not_le] at hg
     cases h
     exact ⟨hg.2, rfl⟩
+
+example : ∃ s', step { wbs := 90, readCap := 1024, minHead := 14 }
+      { init with wb := 89, st := .send } (.bodyChunk 1006) = some s' ∧ s'.wb = 1095 := ⟨_, rfl, rfl⟩
 
 /-- every response has a body, heads and error heads are at most `H` bytes -/
 def HeadOk (H : Nat) : Ev → Prop
